@@ -84,9 +84,11 @@ CONSTANTS
   MaxSweeps = 3
   ResumePermutes = TRUE
   AllowCrash = FALSE
+  UpdateAfterRebuild = TRUE
 INVARIANT BathShape
 INVARIANT CentreFollowsSweep
 INVARIANT OneFillPerStep
+INVARIANT DriveWritten
 INVARIANT ReturnedComplete
 INVARIANT ReturnedInRegisterOrder
 PROPERTY StepsInOrder
